@@ -184,13 +184,13 @@ type seqCase struct {
 }
 
 type seqRun struct {
-	t      vkit.TB
-	c      *seqCase
-	q      *pubsub.Queue[int]
-	ex     func(int, vkit.Step, context.Context) vkit.Result
-	st     pmodel.State
-	cctx   context.Context
-	reject int
+	t            vkit.TB
+	c            *seqCase
+	q            *pubsub.Queue[int]
+	ex           func(int, vkit.Step, context.Context) vkit.Result
+	st           pmodel.State
+	cctx         context.Context
+	reject       int
 	closeThenPop bool
 }
 
@@ -264,7 +264,9 @@ func TestQueueSequential(t *testing.T) {
 				}
 				do(s)
 			},
-			"Len":   func(t *rapid.T) { do(vkit.Step{Op: rapid.SampledFrom([]string{"Len", "DLen"}).Draw(t, "via"), Ctx: -1}) },
+			"Len": func(t *rapid.T) {
+				do(vkit.Step{Op: rapid.SampledFrom([]string{"Len", "DLen"}).Draw(t, "via"), Ctx: -1})
+			},
 			"Close": func(*rapid.T) { do(vkit.Step{Op: "Close", Ctx: -1}) },
 		})
 		cc := *c
@@ -287,6 +289,7 @@ const tLin = "TestQueueLinearizable"
 
 type linCase struct {
 	Opts    Opts         `json:"opts"`
+	Prefill int          `json:"prefill,omitempty"` // Adds applied (to the queue and to the model) before the threads start
 	Prog    vkit.Program `json:"program"`
 	History []string     `json:"history,omitempty"`
 }
@@ -294,6 +297,15 @@ type linCase struct {
 func runLin(t vkit.TB, c *linCase, reps int) (overlaps int, released int) {
 	for i := 0; i < reps; i++ {
 		q, init := c.Opts.make()
+		for k := 0; k < c.Prefill; k++ {
+			in := vkit.Step{Op: "Add", V: 9000 + k, Ctx: -1}
+			out := exec(q)(0, in, context.Background())
+			ok, st := step(init, in, out)
+			if !ok {
+				vkit.Fail(t, tLin, "C05:prefill", *c, "prefill Add %d returned %q, which the sequential model does not allow", k, out.Err)
+			}
+			init = st
+		}
 		model := porcupine.Model{
 			Init:              func() any { return init },
 			Step:              func(st, in, out any) (bool, any) { return step(st.(pmodel.State), in.(vkit.Step), out.(vkit.Result)) },
@@ -322,6 +334,8 @@ func runLin(t vkit.TB, c *linCase, reps int) (overlaps int, released int) {
 	return
 }
 
+var linContentionOps = []string{"BlockingAdd", "BlockingAdd", "BlockingAdd", "Add", "Send", "Remove", "Remove", "Wait", "Len", "cancel"}
+
 var linOps = []string{"Add", "Add", "Send", "BlockingAdd", "BlockingAdd", "Remove", "Remove", "Wait", "Wait", "Receive", "Len", "DLen", "Close", "cancel"}
 
 func TestQueueLinearizable(t *testing.T) {
@@ -340,11 +354,28 @@ func TestQueueLinearizable(t *testing.T) {
 		ng := rapid.IntRange(2, 4).Draw(t, "goroutines")
 		next := 0
 		closes := 0
+		// half of the bounded cases are "slot contention" programs: the
+		// queue starts at (or one below) its soft quota and the threads
+		// mostly add, block-add and remove, so that several producers
+		// compete for the slot one removal frees.
+		ops := linOps
+		contention := !c.Opts.Unlimited && rapid.Bool().Draw(t, "contention")
+		if contention {
+			soft := c.Opts.Soft
+			if soft <= 0 {
+				soft = c.Opts.Hard
+			}
+			c.Prefill = soft - rapid.IntRange(0, 1).Draw(t, "belowQuota")
+			if c.Prefill < 0 {
+				c.Prefill = 0
+			}
+			ops = linContentionOps
+		}
 		for g := 0; g < ng; g++ {
 			n := rapid.IntRange(1, 7).Draw(t, "nops")
 			var th []vkit.Step
 			for i := 0; i < n; i++ {
-				s := vkit.Step{Op: rapid.SampledFrom(linOps).Draw(t, "op"), Ctx: -1, Yield: rapid.IntRange(0, 4).Draw(t, "yield")}
+				s := vkit.Step{Op: rapid.SampledFrom(ops).Draw(t, "op"), Ctx: -1, Yield: rapid.IntRange(0, 4).Draw(t, "yield")}
 				switch s.Op {
 				case "Add", "Send", "BlockingAdd":
 					next++
@@ -375,7 +406,7 @@ func TestQueueLinearizable(t *testing.T) {
 			}
 		}
 		ov, rel := runLin(t, c, reps)
-		cls := []string{fmt.Sprintf("unlimited=%v", c.Opts.Unlimited), fmt.Sprintf("goroutines=%d", ng), fmt.Sprintf("overlap=%v", ov > 0)}
+		cls := []string{fmt.Sprintf("unlimited=%v", c.Opts.Unlimited), fmt.Sprintf("goroutines=%d", ng), fmt.Sprintf("overlap=%v", ov > 0), fmt.Sprintf("slot-contention=%v", contention)}
 		if rel > 0 {
 			cls = append(cls, "leftovers-released")
 		}
